@@ -312,6 +312,7 @@ fn run_m<M: RawMutex>(cfg: &Cfg, ops: &[Op], run: &mut Run) {
         }
         run.set_step(i);
         run.steps += 1;
+        let op = &recycle(op, &slots, &[OP_CREATE], OP_POLL, OP_DROP);
         tls::clear_op_log();
         tls::alloc_reset();
         let allow_alloc = false;
